@@ -5,6 +5,7 @@
 package tok
 
 import (
+	"encoding/hex"
 	"fmt"
 	"math/big"
 	"strings"
@@ -19,6 +20,7 @@ import (
 	connectiontypes "github.com/cosmos/ibc-go/v8/modules/core/03-connection/types"
 	channeltypes "github.com/cosmos/ibc-go/v8/modules/core/04-channel/types"
 	commitmenttypes "github.com/cosmos/ibc-go/v8/modules/core/23-commitment/types"
+	porttypes "github.com/cosmos/ibc-go/v8/modules/core/05-port/types"
 	host "github.com/cosmos/ibc-go/v8/modules/core/24-host"
 	"github.com/cosmos/ibc-go/v8/modules/core/exported"
 	ibctm "github.com/cosmos/ibc-go/v8/modules/light-clients/07-tendermint"
@@ -28,6 +30,7 @@ import (
 	fxtypes "github.com/functionx/fx-core/v8/types"
 	crosschaintypes "github.com/functionx/fx-core/v8/x/crosschain/types"
 	erc20types "github.com/functionx/fx-core/v8/x/erc20/types"
+	ibcmwtypes "github.com/functionx/fx-core/v8/x/ibc/middleware/types"
 
 	"fxverif/lib"
 )
@@ -163,4 +166,46 @@ func AddOwnVoucherToken(c *lib.Chain, ctx sdk.Context, portID, channelID, base s
 	pair, err := c.App.Erc20Keeper.RegisterNativeCoin(ctx, meta)
 	lib.Must(err)
 	return Token{Base: denom, Erc20: pair.GetERC20Contract(), NativeCoin: true}
+}
+
+// ---- the IBC application stack of the real app, wrapped in ibc-go's core cache rule -------------------
+
+// TransferStack returns the top IBCModule routed for port "transfer" (fx IBCMiddleware around ibc-go transfer).
+func TransferStack(c *lib.Chain) porttypes.IBCModule {
+	m, ok := c.App.IBCKeeper.Router.GetRoute(transfertypes.ModuleName)
+	if !ok {
+		panic("no transfer route")
+	}
+	return m
+}
+
+// CoreRecv transcribes ibc-go v8.5.1 modules/core/keeper/msg_server.go RecvPacket, application part:
+//
+//	cacheCtx, writeFn = ctx.CacheContext()
+//	ack := cbs.OnRecvPacket(cacheCtx, msg.Packet, relayer)
+//	if ack == nil || ack.Success() { writeFn() }
+//
+// (proof verification, receipts and WriteAcknowledgement belong to the core and are not run).
+func CoreRecv(c *lib.Chain, ctx sdk.Context, pkt channeltypes.Packet, relayer sdk.AccAddress) (success bool, ack []byte) {
+	cacheCtx, writeFn := ctx.CacheContext()
+	a := TransferStack(c).OnRecvPacket(cacheCtx, pkt, relayer)
+	if a == nil || a.Success() {
+		writeFn()
+	}
+	if a == nil {
+		return true, nil
+	}
+	return a.Success(), a.Acknowledgement()
+}
+
+// InPacket builds an inbound ICS-20 packet arriving on our (port, channel) from the counterparty's srcChannel.
+func InPacket(seq uint64, srcChannel, port, channel string, data transfertypes.FungibleTokenPacketData) channeltypes.Packet {
+	return channeltypes.NewPacket(data.GetBytes(), seq, port, srcChannel, port, channel, clienttypes.NewHeight(0, 1_000_000), 0)
+}
+
+// MemoCall renders an IbcCallEvmPacket memo with the app codec.
+func MemoCall(c *lib.Chain, to string, data []byte, value int64) string {
+	bz, err := c.App.AppCodec().MarshalInterfaceJSON(&ibcmwtypes.IbcCallEvmPacket{To: to, Data: hex.EncodeToString(data), Value: sdkmath.NewInt(value)})
+	lib.Must(err)
+	return string(bz)
 }
